@@ -9,6 +9,7 @@ import (
 	"math/big"
 	"os"
 	"os/exec"
+	"strconv"
 	"strings"
 	"sync/atomic"
 	"time"
@@ -62,6 +63,9 @@ type Solver struct {
 	freshExtra string
 	hdr        string
 	retryBin  string // solver spec for one-shot retries (default: bin)
+	modelTerms func() []*Term      // terms whose values a one-shot model must carry (the path's inputs and observations)
+	osModel    map[*Term]*big.Int  // model of the last query, when a one-shot retry decided it "sat" (solver_oneshot.go)
+	osKeep     bool                // CheckWith(.., keepOnSat) was decided by a one-shot retry: no scope to pop
 	tactic   string   // non-empty: (check-sat-using <tactic>) instead of (check-sat)
 	fbInit   bool     // "fallback:" mode: short timeout for the incremental attempt has been set
 	logf     *os.File // VERIF_SMTLOG=<dir>: transcript of everything sent (diagnostics)
@@ -172,9 +176,18 @@ var queryLog = func() *os.File {
 	return nil
 }()
 
+// VERIF_FORCE_UNKNOWN=<n> (diagnostics): every n-th answer of the long-lived
+// solver process is discarded as "unknown", so that the recovery and one-shot
+// retry paths (solver_oneshot.go) can be exercised on any suite.
+var forceUnknown = func() int64 {
+	n, _ := strconv.ParseInt(os.Getenv("VERIF_FORCE_UNKNOWN"), 10, 64)
+	return n
+}()
+
 // Reset discards all assertions (start of a new path).
 func (s *Solver) Reset() {
 	s.asserted = s.asserted[:0]
+	s.osModel, s.osKeep = nil, false
 	if s.dead {
 		s.restart()
 		return
@@ -191,6 +204,7 @@ func (s *Solver) Reset() {
 }
 
 func (s *Solver) Assert(t *Term) {
+	s.osModel = nil
 	s.asserted = append(s.asserted, t)
 	s.em.Define(t)
 	s.send(s.em.Take())
@@ -235,6 +249,9 @@ func (s *Solver) checkRaw() SatResult {
 	}
 	if s.lastErr != "" {
 		res = Unknown
+	}
+	if forceUnknown > 0 && s.stats.Queries%forceUnknown == 0 {
+		res = Unknown // diagnostics: exercise the retry paths
 	}
 	s.stats.Nanos += int64(time.Since(t0))
 	if d := time.Since(t0); d > 3*time.Second && slowLog != nil {
@@ -289,9 +306,22 @@ func (s *Solver) readAnswer() SatResult {
 // Check asks whether the current assertions are satisfiable.
 func (s *Solver) Check() SatResult {
 	s.lastErr = ""
+	s.osModel = nil
 	r := s.checkRaw()
 	if r == Unknown {
 		s.recover()
+		if !s.noOneShot && !s.dead && s.lastErr == "" && s.modelTerms != nil {
+			// retry in a fresh non-incremental process, which also delivers the model a caller may read
+			if r2 := s.oneShot(nil, true); r2 != Unknown {
+				s.stats.Unknown--
+				if r2 == Unsat {
+					s.stats.Unsat++
+				} else {
+					s.stats.Sat++
+				}
+				return r2
+			}
+		}
 	}
 	return r
 }
@@ -301,6 +331,7 @@ func (s *Solver) Check() SatResult {
 // can be read).  Call PopModel afterwards in that case.
 func (s *Solver) CheckWith(extra *Term, keepOnSat bool) SatResult {
 	s.lastErr = ""
+	s.osModel = nil
 	s.em.Define(extra)
 	defs := s.em.Take()
 	// definitions go outside the push so they survive (they are just macros)
@@ -317,13 +348,15 @@ func (s *Solver) CheckWith(extra *Term, keepOnSat bool) SatResult {
 		s.send("(pop)\n")
 	}
 	if r == Unknown && !s.noOneShot && !s.dead && s.lastErr == "" {
-		// retry in a fresh non-incremental process; a "sat" is only usable when no model is wanted
-		if r2 := s.oneShot(extra); r2 == Unsat || (r2 == Sat && !keepOnSat) {
+		// retry in a fresh non-incremental process; where a model is wanted the retry delivers
+		// it (s.osModel) and no scope stays pushed in the long-lived process (s.osKeep)
+		if r2 := s.oneShot(extra, keepOnSat && s.modelTerms != nil); r2 == Unsat || (r2 == Sat && (!keepOnSat || s.osModel != nil)) {
 			s.stats.Unknown--
 			if r2 == Unsat {
 				s.stats.Unsat++
 			} else {
 				s.stats.Sat++
+				s.osKeep = keepOnSat
 			}
 			return r2
 		}
@@ -352,6 +385,10 @@ func (s *Solver) recover() {
 }
 
 func (s *Solver) PopModel() {
+	if s.osKeep {
+		s.osKeep, s.osModel = false, nil
+		return
+	}
 	s.send("(pop)\n")
 	s.depth--
 }
@@ -360,6 +397,17 @@ func (s *Solver) PopModel() {
 func (s *Solver) GetValues(ts []*Term) ([]*big.Int, error) {
 	if len(ts) == 0 {
 		return nil, nil
+	}
+	if s.osModel != nil {
+		vals := make([]*big.Int, len(ts))
+		for i, t := range ts {
+			v, ok := s.osModel[t]
+			if !ok {
+				return nil, fmt.Errorf("solver: term not in the one-shot model")
+			}
+			vals[i] = v
+		}
+		return vals, nil
 	}
 	var sb strings.Builder
 	if s.fresh { // solver_fresh.go: new terms become macros here (an assertion would invalidate the model)
